@@ -646,3 +646,24 @@ def check_pop_chain(ctx, P, rule="E5.chain"):
         ctx.ob(rule, fk, ok, "%s = %s under POP_DST over the key's own compressed bytes: %s" % (fk, "PopProve(self)" if kind == "prove" else "PopVerify(pk, self)", detail), where=where(f))
         if kind == "prove":
             ctx.ob(rule, fk + "/result", bool(built_variants(inline(P, ev.ret, 2, only=only), "ProofOfPossession")), "result wraps the proof", where=where(f))
+
+
+def check_hash_derivations(ctx, P, rule="E5.from-hash", fns=("ProofCommitmentChallenge<C>::from_hash", "SecretKey<C>::from_hash")):
+    """`from_hash(data)` derives its scalar from the WHOLE input: hash_to_scalar(data, KEYGEN_SALT) with the message
+    argument being exactly the caller's bytes (no prefix, no fixed-size seed the input is zipped / truncated into)."""
+    for fk in fns:
+        f = ctx.need_fn(rule, fk, P)
+        if f is None:
+            continue
+        ev = evaluate(f)
+        ret = strip_sites(inline(P, ev.ret, 3, only=lambda g: not g.key.endswith("::hash_to_scalar") and not g.key.endswith("scalar_from_hkdf_bytes")))
+        hs = [t for t in subterms(ret) if t.op == "call" and B.cname(t) in ("HashToScalar::hash_to_scalar", "helpers::scalar_from_hkdf_bytes")]
+        ok = len(hs) == 1
+        shown = show(ret, 5)
+        if ok:
+            args = hs[0].a[1]
+            m = args[-1] if B.cname(hs[0]).endswith("scalar_from_hkdf_bytes") else args[0]
+            segs = B.nf(ev, m)
+            shown = B.show_nf(segs)
+            ok = len(segs) == 1 and segs[0][0] == "v" and B.peel(segs[0][1]).op == "param" and B.peel(segs[0][1]).a[1] == "data"
+        ctx.ob(rule, fk, ok, "%s hashes the caller's bytes whole: message = %s" % (fk, shown), where=where(f))
